@@ -43,6 +43,21 @@ def gen_state(rng, want=None, equal_gamma=False, pscale=1.0):
         ul, ur = -du, 0.0
     else:
         ul, ur = -du / 2, du / 2
+    # degenerate data (one case in eight): exactly equal thermodynamic states on the two sides (the solvers tell the sides
+    # apart by comparing state values), exactly equal pressures or densities only, exactly symmetric collisions/separations
+    if want is None and rng.random() < 0.125:
+        kind = int(rng.integers(4))
+        if kind == 0:          # twins: only the velocities differ
+            rr, pr, gr = rl, pl, gl
+        elif kind == 1:        # symmetric about the membrane
+            rr, pr, gr = rl, pl, gl
+            ul, ur = -du / 2, du / 2
+        elif kind == 2:
+            pr = pl
+        else:
+            rr = rl
+        if kind in (0, 1) and du == 0.0:
+            ur = ul + 0.3 * cl
     return dict(rl=rl, ul=ul, pl=pl, gl=gl, rr=rr, ur=ur, pr=pr, gr=gr)
 
 
